@@ -47,12 +47,13 @@ if os.path.isdir(sd):
                 return 'not run'
             return 'DETECTED' if ev[t]['detected'] else 'missed (exit %d)' % ev[t]['exit']
         by = ''
+        rel = [k for k, v in ev.items() if ' via ' in k and v.get('detected')]
         for t in ('quick', 'thorough'):
             if t in ev and ev[t].get('first_violation'):
                 by = ev[t]['first_violation'].split(':')[0].replace('suite=', '')
                 break
         lines.append('| %s | %s | %s | %s | %s | %s | %s |' % (ident, m.get('property'), (m.get('summary') or '').replace('|', '/')[:160],
-                                                               (m.get('needs') or '').replace('|', '/')[:160], cell('quick'), cell('thorough'), by))
+                                                               (m.get('needs') or '').replace('|', '/')[:160], cell('quick') + (' (' + ', '.join(rel) + ': DETECTED)' if rel else ''), cell('thorough'), by))
 put('SENSITIVITY', '\n'.join(lines))
 open(p, 'w').write(s)
 print('DESIGN.md tables updated')
